@@ -88,8 +88,34 @@ pub fn check_text(s: &str) -> Option<Fail> {
             }
         }
         (Some((want, f)), Ok(v)) => {
-            if f.lone_surrogate || f.overflow_number {
+            if f.overflow_number {
                 return None;
+            }
+            if f.lone_surrogate {
+                // accepting is optional; when the text is accepted, a String cannot hold the unpaired surrogate itself
+                // (the reference puts U+FFFD there), but everything else the text denotes must be there unchanged:
+                // compare with the replacement characters taken out of both sides (substituted or dropped are both fine)
+                fn strip(v: &JV) -> JV {
+                    let st = |s: &str| s.chars().filter(|c| *c != '\u{FFFD}').collect::<String>();
+                    match v {
+                        JV::Str(s) => JV::Str(st(s)),
+                        JV::Arr(a) => JV::Arr(a.iter().map(strip).collect()),
+                        JV::Obj(o) => JV::Obj(o.iter().map(|(k, v)| (st(k), strip(v))).collect()),
+                        other => other.clone(),
+                    }
+                }
+                let got = json::from_humphrey(&v);
+                return if strip(&got) == strip(&want) {
+                    None
+                } else {
+                    Some(fail!(
+                        "wrong-value:around-unpaired-surrogate",
+                        "Value::parse({:?}) = {} : apart from the unpaired surrogate(s) the text denotes {}",
+                        cut(s),
+                        cut(&format!("{:?}", got)),
+                        cut(&format!("{:?}", want))
+                    ))
+                };
             }
             let got = json::from_humphrey(&v);
             if got == want {
